@@ -45,7 +45,11 @@ func (fs LocalFileSystem) Open(ctx context.Context, name string) (io.ReadCloser,
 	if err != nil {
 		return nil, err
 	}
-	return os.Open(p)
+	f, err := os.Open(p)
+	if err != nil {
+		return nil, errFromOS(err)
+	}
+	return f, nil
 }
 
 func fileInfoFromOS(p string, fi os.FileInfo) *FileInfo {
@@ -65,12 +69,21 @@ func fileInfoFromOS(p string, fi os.FileInfo) *FileInfo {
 	}
 }
 
-func errFromOS(err error) error {
-	// Remove path from path errors so it's not returned to the user
+// stripPath removes local paths from OS errors so they're not returned to the
+// user.
+func stripPath(err error) error {
 	var perr *fs.PathError
+	var lerr *os.LinkError
 	if errors.As(err, &perr) {
-		err = fmt.Errorf("%s: %w", perr.Op, perr.Err)
+		return fmt.Errorf("%s: %w", perr.Op, perr.Err)
+	} else if errors.As(err, &lerr) {
+		return fmt.Errorf("%s: %w", lerr.Op, lerr.Err)
 	}
+	return err
+}
+
+func errFromOS(err error) error {
+	err = stripPath(err)
 
 	if errors.Is(err, fs.ErrNotExist) {
 		return NewHTTPError(http.StatusNotFound, err)
@@ -208,7 +221,7 @@ func (fs LocalFileSystem) Mkdir(ctx context.Context, name string) error {
 		return err
 	}
 	if err := os.Mkdir(p, 0755); os.IsExist(err) {
-		return NewHTTPError(http.StatusMethodNotAllowed, err)
+		return NewHTTPError(http.StatusMethodNotAllowed, stripPath(err))
 	} else {
 		return errFromOS(err)
 	}
@@ -223,7 +236,7 @@ func copyRegularFile(src, dst string, perm os.FileMode) error {
 
 	dstFile, err := os.OpenFile(dst, os.O_RDWR|os.O_CREATE|os.O_TRUNC, perm)
 	if os.IsNotExist(err) {
-		return NewHTTPError(http.StatusConflict, err)
+		return NewHTTPError(http.StatusConflict, stripPath(err))
 	} else if err != nil {
 		return errFromOS(err)
 	}
